@@ -854,6 +854,9 @@ def try_branches_on(fn, poll_call):
         roots = fn.origins(c.args[0], through=THROUGH_TRY)
         if not any(r["k"] == "call" and r["call"].bb == poll_call.bb for r in roots):
             continue
+        # how deep inside the value the tested Result sits: Ready(Ok(x))? tests depth 2, the `?` after it depth 3, ..
+        depth = min(len([e for e in r.get("proj", []) if e.startswith("d:")]) + len([e for e in r.get("trail", []) if e.startswith("d:") and e.endswith("Continue")])
+                    for r in roots if r["k"] == "call" and r["call"].bb == poll_call.bb)
         t = fn.term(c.target) if c.target is not None else None
         ce = be = None
         if t and t["k"] == "switch":
@@ -862,7 +865,7 @@ def try_branches_on(fn, poll_call):
                 ce = (c.target, info["edges"]["Continue"])
             if "Break" in info["edges"]:
                 be = (c.target, info["edges"]["Break"])
-        out.append({"call": c, "cont_edge": ce, "break_edge": be})
+        out.append({"call": c, "cont_edge": ce, "break_edge": be, "depth": depth})
     # the same decisions spelled as explicit matches: `match x { Ok(v) => .., Err(e) => .. }` on the value (or on the Ok
     # payload of an outer Ok, and so on)
     seen_sw = set()
@@ -884,7 +887,7 @@ def try_branches_on(fn, poll_call):
             if any(b["call"] is not None and b["call"].target == sw["site"].bb for b in out):
                 continue
             seen_sw.add(key)
-            out.append({"call": None, "cont_edge": ce, "break_edge": be, "switch": sw})
+            out.append({"call": None, "cont_edge": ce, "break_edge": be, "switch": sw, "depth": len(sw["path"])})
     return out
 
 
@@ -970,6 +973,14 @@ def result_decisions(fn, pred):
         err_t = edges.get("Err")
         out.append({"site": site, "call": None, "cont_edge": (site.bb, ok_t) if ok_t is not None else None, "break_edge": (site.bb, err_t) if err_t is not None else None})
     return out
+
+
+def result_layers_checked(brs, layers):
+    """the nested Results of an awaited value are each decided: `layers` are the nesting depths (number of variant downcasts
+    from the awaited value) at which an Ok/Err decision must exist.  `race.await` of a caught hook yields
+    Ready(Ok(Ok(Ok(())))): not signalled (depth 1), no panic (depth 2), hook returned Ok (depth 3)."""
+    have = set(b.get("depth") for b in brs)
+    return all(l in have for l in layers)
 
 
 def creation_sites(db, body):
